@@ -157,6 +157,9 @@ def gen_program(r, two=None):
     # every program starts with an ORG so code does not start at 0 in every case (half of the time)
     if two is None and r.random() < 0.5:
         seq.insert(0, "org")
+        # nothing has been placed at address 0 then: a later `.ORG 0` (numeric zero as a location) is a legal place to go
+        if r.random() < 0.4:
+            windows.insert(r.randrange(max(1, len(windows) - 6), len(windows)), 0x00000)
     expanded = []
     for kind in seq:
         expanded.append(kind)
